@@ -2013,6 +2013,8 @@ impl CommandParser {
         let key = Self::extract_bytes(&frames[1])?;
         let value = Self::extract_bytes(&frames[2])?;
         let mut options = SetOptions::default();
+        let mut ex = false; // EX seen: PX is then a syntax error
+        let mut px = false; // PX seen: EX is then a syntax error
         
         let mut i = 3;
         while i < frames.len() {
@@ -2031,9 +2033,14 @@ impl CommandParser {
                     i += 1;
                 }
                 "EX" => {
+                    // as the direct command: EX and PX exclude each other
+                    if px {
+                        return Err(FerrousError::Command(CommandError::SyntaxError("EX and PX exclude each other".to_string())));
+                    }
                     if i + 1 >= frames.len() {
                         return Err(FerrousError::Command(CommandError::SyntaxError("Missing EX value".to_string())));
                     }
+                    ex = true;
                     let seconds = Self::extract_string(&frames[i + 1])?.parse::<u64>()
                         .map_err(|_| FerrousError::Command(CommandError::InvalidIntegerValue))?;
                     // as the direct command: the expire time must be positive
@@ -2044,9 +2051,14 @@ impl CommandParser {
                     i += 2;
                 }
                 "PX" => {
+                    // as the direct command: EX and PX exclude each other
+                    if ex {
+                        return Err(FerrousError::Command(CommandError::SyntaxError("EX and PX exclude each other".to_string())));
+                    }
                     if i + 1 >= frames.len() {
                         return Err(FerrousError::Command(CommandError::SyntaxError("Missing PX value".to_string())));
                     }
+                    px = true;
                     let millis = Self::extract_string(&frames[i + 1])?.parse::<u64>()
                         .map_err(|_| FerrousError::Command(CommandError::InvalidIntegerValue))?;
                     // as the direct command: the expire time must be positive
